@@ -4,6 +4,7 @@
 mod checks;
 mod common;
 mod oracle;
+mod space;
 
 use common::*;
 use std::process::Command;
@@ -23,6 +24,9 @@ fn run_check(id: &str, tier: Tier) -> i32 {
 		"C02" => checks::c02::run(tier, &reg),
 		"C03" => checks::c03::run(tier, &reg),
 		"C04" => checks::c04::run(tier),
+		"C05" => checks::c05::run(tier, &reg),
+		"C13" => checks::c13::run(tier, &reg),
+		"C15" => checks::c15::run(tier),
 		_ => {
 			eprintln!("unknown property {}", id);
 			return 2;
@@ -42,6 +46,9 @@ fn run_replay(id: &str, path: &str) -> i32 {
 		"C02" => checks::c02::replay(&reg, case),
 		"C03" => checks::c03::replay(&reg, case),
 		"C04" => checks::c04::replay(case),
+		"C05" => checks::c05::replay(&reg, case),
+		"C13" => checks::c13::replay(&reg, case),
+		"C15" => checks::c15::replay(case),
 		_ => {
 			eprintln!("no replayer for sub-check {}", sub);
 			return 2;
@@ -64,6 +71,16 @@ fn main() {
 	let args: Vec<String> = std::env::args().skip(1).collect();
 	if args.is_empty() {
 		usage();
+	}
+	if args[0] == "--worker" {
+		silence_panics();
+		let reg = common::registry();
+		let code = match args.get(1).map(|s| s.as_str()) {
+			Some("c05skip") => checks::c05::worker(&reg, &args[2..]),
+			Some("c05skip1") => checks::c05::worker_one(&reg, &args[2..]),
+			_ => 2,
+		};
+		std::process::exit(code);
 	}
 	let mut child = false;
 	let mut id = String::new();
